@@ -58,7 +58,7 @@ def register(M):
         two = exists(qvars(x) + qvars(y), AND(S.member(x), S.member(y), NOT(EQ(x, y))))
         if is_z3(two):
             st.assume((c >= 2) == two)
-        ex.use('L-CARD:count facts (=0, >=2, =|box|)')
+        ex.use('L-CARD:count facts (=0, >=2) [Lean: Lemmas.count_*]')
         return c
     M.set_card = set_card
 
@@ -80,7 +80,7 @@ def register(M):
             S = SSet(lambda x: in_range(x, v[1], v[2]), INT)
             st.ghost['want_cards'] = True
             st.assume(set_card(S, st) == Z(M.nonneg_diff(v[2], v[1])))
-            ex.use('L-CARD:card of an integer interval')
+            ex.use('L-CARD:card of an integer interval [Lean: Lemmas.card_interval]')
             return st.alloc(S)
         if tag(v) in LAZY:
             v = st.deref(materialise(M, v, st))
@@ -91,7 +91,7 @@ def register(M):
             if st.ghost.get('cards') or st.ghost.get('want_cards'):
                 c = set_card(S, st)
                 st.assume(AND(c <= Z(v.n), IMPLIES(list_distinct(v), c == Z(v.n))))
-                ex.use('L-CARD:a list without repetition of length n has n distinct elements')
+                ex.use('L-CARD:a list without repetition of length n has n distinct elements [Lean: Lemmas.card_nodup_list]')
             return st.alloc(S)
         if isinstance(v, SArr) and v.ndim == 1:
             k = bvar('k')
